@@ -225,8 +225,10 @@ class Checksum(FunctionSpec):
     func = 'utils.calculate_canbus_checksum'
     prop = 'C06'
 
-    def __init__(self, n=20):
+    def __init__(self, n=20, prop=None):
         self.n = n
+        if prop:
+            self.prop = prop
 
     def param_names(self):
         return ['data']
